@@ -174,7 +174,8 @@ def parseFrameTok (s : String) : Option Frame :=
   else none
 
 def parseObsTok (t : String) : Option Act :=
-  if t.startsWith "S" then
+  if t == "SETUP" then some .setup
+  else if t.startsWith "S" then
     let body := (t.drop 1).toString
     let e := body.endsWith "e"
     let num := if e then (body.dropEnd 1).toString else body
@@ -185,7 +186,6 @@ def parseObsTok (t : String) : Option Act :=
   else if t.startsWith "Qp" then some (.q .paired (t.endsWith "1"))
   else if t.startsWith "Qa" then some (.q .auto (t.endsWith "1"))
   else if t.startsWith "Qw" then some (.q .allow (t.endsWith "1"))
-  else if t == "SETUP" then some .setup
   else if t.startsWith "ID:" then some .shipId
   else if t.startsWith "P:" then some .deliver
   else if t.startsWith "WSC:" then some (.wsClose .dflt .none)
